@@ -23,6 +23,8 @@ type Profile struct {
 	Interface   bool
 	Union       bool
 	Requires    bool
+	IfaceRel    bool // the interface Node (and every implementer) has a field relOwner returning one entity type: the same entity field under an interface and under its concrete types
+	Requires2   bool // stacked @requires: a second derived field computed from the first one, owned by another subgraph (chains of 3 dependent fetches on one entity)
 	Provides    bool
 	Shareable   bool
 	Mutation    bool
@@ -193,9 +195,41 @@ func GenLayout(r *rand.Rand, p Profile) *Layout {
 		sort.Strings(ifaceImpl)
 		it := &gen.TypeDef{Name: "Node", Kind: gen.Interface, Fields: []*gen.Field{{Name: "id", Type: gen.Named("ID", true)}, {Name: "label", Type: gen.Named("String", false)}}}
 		s.Add(it)
+		relOwner := ""
+		relOwnerHome := -1
+		if p.IfaceRel {
+			relOwner = entNames[r.IntN(len(entNames))]
+			it.Fields = append(it.Fields, &gen.Field{Name: "relOwner", Type: gen.Named(relOwner, false)})
+			// preferably one subgraph resolves relOwner for every implementer (then that subgraph's
+			// interface lists the field and the planner can select it on the interface itself)
+			count := map[int]int{}
+			for _, en := range ifaceImpl {
+				for _, h := range g.l.Entities[en] {
+					count[h]++
+				}
+			}
+			var common []int
+			for h, n := range count {
+				if n == len(ifaceImpl) {
+					common = append(common, h)
+				}
+			}
+			sort.Ints(common)
+			if len(common) > 0 && r.IntN(4) != 0 {
+				relOwnerHome = common[r.IntN(len(common))]
+			}
+		}
 		for _, en := range ifaceImpl {
 			td := s.Type(en)
 			td.Interfaces = append(td.Interfaces, "Node")
+			if relOwner != "" {
+				td.Fields = append(td.Fields, &gen.Field{Name: "relOwner", Type: gen.Named(relOwner, false)})
+				o := relOwnerHome
+				if o < 0 {
+					o = pick(r, g.l.Entities[en])
+				}
+				g.l.Fields[coord(en, "relOwner")] = &FieldInfo{Owners: []int{o}}
+			}
 			// same type as the interface field: a non-null strengthened implementer field runs into the
 			// normaliser's nullability re-binding (known finding C03-F8), which is not what C01 is about
 			lt := gen.Named("String", false)
@@ -288,7 +322,21 @@ func GenLayout(r *rand.Rand, p Profile) *Layout {
 			}
 			fn := "derived" + strings.Title(x.Name)
 			td.Fields = append(td.Fields, &gen.Field{Name: fn, Type: gen.Named("String", r.IntN(2) == 0)})
-			g.l.Fields[coord(en, fn)] = &FieldInfo{Owners: []int{pick(r, others)}, Requires: x.Name}
+			o := pick(r, others)
+			g.l.Fields[coord(en, fn)] = &FieldInfo{Owners: []int{o}, Requires: x.Name}
+			if p.Requires2 && r.IntN(2) == 0 {
+				var others2 []int
+				for _, h := range homes {
+					if h != o {
+						others2 = append(others2, h)
+					}
+				}
+				if len(others2) > 0 {
+					fn2 := "derived2" + strings.Title(x.Name)
+					td.Fields = append(td.Fields, &gen.Field{Name: fn2, Type: gen.Named("String", r.IntN(2) == 0)})
+					g.l.Fields[coord(en, fn2)] = &FieldInfo{Owners: []int{pick(r, others2)}, Requires: fn}
+				}
+			}
 		}
 	}
 	if p.Provides {
